@@ -105,8 +105,13 @@ for tag, W in [('u16', 16), ('i16', 16), ('u32', 32), ('i32', 32), ('u64', 64), 
                         replay=dict(driver='replay.cpp', case='ns_%s_%s' % (tag, fn), vars=['number', 'count'])))
 groups.append(lemma('lemma_sb_reconstruct', 'h_lemma_sb_reconstruct', ['c_sb_cut32'], 'lemma over the split_bitstring::cut contract', defines=SPLIT))
 
+BR_GROUPS = ('swar32', 'swar64', 'lookup32', 'lookup64', 'muldiv32_byte', 'muldiv64_byte', 'muldiv32_u32', 'muldiv32_u64', 'muldiv64_u32', 'muldiv64_u64', 'muldiv_op32', 'muldiv_op64')
+for _g in groups:
+    if _g['name'] in BR_GROUPS:
+        _g['props'] = ['C25', 'C27']
+
 UNIT = dict(
-    properties=['C25'],
+    properties=['C25', 'C27'],     # C27: only the bit-reversal groups (the callee contracts the split-order encoding is verified against)
     stage=[
         dict(kind='shadow', path='cds/algo/bit_reversal.h', contract_points=[
             dict(name='swar32', anchor=r'struct swar \{\s*/// 32bit\s*uint32_t operator\(\)\( uint32_t x \) const'),
@@ -130,15 +135,15 @@ UNIT = dict(
     extra_scan=['split_contracts.inc'],
     # sabotage self-test: property-breaking edits of the STAGED copy (never /repo); the named obligation must fail
     sabotage=[
-        dict(name='swar_mask', quick=True, target='cds/algo/bit_reversal.h', lit='x = ( ( ( x & 0xf0f0f0f0 ) >> 4 ) | ( ( x & 0x0f0f0f0f ) << 4 ));',
+        dict(name='swar_mask', quick=True, props=['C25', 'C27'], target='cds/algo/bit_reversal.h', lit='x = ( ( ( x & 0xf0f0f0f0 ) >> 4 ) | ( ( x & 0x0f0f0f0f ) << 4 ));',
              to='x = ( ( ( x & 0xf0f0f0f0 ) >> 4 ) | ( ( x & 0x0f0f0f0e ) << 4 ));', count=1, groups=['swar32'], expect_fail=r'w_swar32\.postcondition'),
-        dict(name='lookup_table_entry', target='cds/algo/bit_reversal.h', lit='0x0E, 0x8E, 0x4E, 0xCE,', to='0x0E, 0x8E, 0x4E, 0xCF,', count=1,
+        dict(name='lookup_table_entry', props=['C25', 'C27'], target='cds/algo/bit_reversal.h', lit='0x0E, 0x8E, 0x4E, 0xCE,', to='0x0E, 0x8E, 0x4E, 0xCF,', count=1,
              groups=['lookup32'], expect_fail=r'w_lookup32\.postcondition'),
-        dict(name='cut_mask_int', target='cds/algo/split_bitstring.h', lit='uint64_t const mask = count < 64 ? ( uint64_t( 1 ) << count ) - 1 : ~uint64_t( 0 );',
+        dict(name='cut_mask_int', props=['C25'], target='cds/algo/split_bitstring.h', lit='uint64_t const mask = count < 64 ? ( uint64_t( 1 ) << count ) - 1 : ~uint64_t( 0 );',
              to='uint64_t const mask = ( 1 << count ) - 1;', count=1, groups=['ns_u64_cut'], expect_fail=r'w_ns_u64_cut\.postcondition|cut\.undefined-shift'),
-        dict(name='safe_cut_rest', quick=True, target='cds/algo/split_bitstring.h', lit='unsigned const rest = static_cast<unsigned>( last_ - cur_ ) * c_nBitPerByte;',
+        dict(name='safe_cut_rest', props=['C25'], quick=True, target='cds/algo/split_bitstring.h', lit='unsigned const rest = static_cast<unsigned>( last_ - cur_ ) * c_nBitPerByte;',
              to='unsigned const rest = static_cast<unsigned>( last_ - cur_ - 1 ) * c_nBitPerByte;', count=1, groups=['bs_2_32_safe_cut'], expect_fail=r'w_bs_2_32_safe_cut\.postcondition'),
-        dict(name='ceil2_off_by_one', target='cds/algo/int_algo.h', lit='return ( size_t( 1 ) << i ) < n ? i + 1 : i;', to='return ( size_t( 1 ) << i ) <= n ? i + 1 : i;', count=1,
+        dict(name='ceil2_off_by_one', props=['C25'], target='cds/algo/int_algo.h', lit='return ( size_t( 1 ) << i ) < n ? i + 1 : i;', to='return ( size_t( 1 ) << i ) <= n ? i + 1 : i;', count=1,
              groups=['log2ceil'], expect_fail=r'w_log2ceil\.postcondition'),
     ],
     groups=groups,
